@@ -435,7 +435,7 @@ def query_op(g, paths):
         return
     qi = r.randrange(len(QUERIES)) if r.random() < 0.55 else r.randrange(24)
     path = r.choice(paths)
-    arg = r.choice(BATCH_SIZES) if path == 3 else 0
+    arg = r.choice(BATCH_SIZES) if path in (3, 10) else (r.randrange(40) + (1000 if r.random() < 0.15 else 0)) if path == 9 else 0
     g.emit(30, w, qi, path, arg, len(QASTS[qi]), QASTS[qi])
 
 
@@ -478,7 +478,7 @@ def nontrivial_world(case, obs):
 
 
 WORLD_RULE = ("engine world: seeded scripts of 4..140 operations over two worlds and 8 component layouts (ZST, "
-              "over-aligned ZST, 4/8-byte, heap-owning, align-64, 24-byte align-1, 320-byte): spawn (static tuples in "
+              "ZST with alignment 8, 4/8-byte, heap-owning, align-64, 24-byte align-1, 320-byte): spawn (static tuples in "
               "any field order from a 68-type catalogue, EntityBuilder bundles), spawn_at, insert, remove, exchange, "
               "despawn, take (dropped / moved to the other world), clear, reserve_entity/entities, flush, reserve::<T>, "
               "spawn_batch, spawn_column_batch(_at); handles named by table index or forged bit patterns; mostly-valid "
@@ -556,7 +556,8 @@ QUERY_RULE = (WORLD_RULE + ". Query operations interleaved with the history: a c
               "its own AST) asked through query().iter, query_mut, view/view_mut (iteration + random access), "
               "iter_batched (sizes 1,2,3,5,63,64,65,u32::MAX), PreparedQuery::{query,query_mut,view_mut} (one cached "
               "prepared query per type shared by both worlds), query_one/query_one_mut/EntityRef::query, "
-              "satisfies and Archetype::access; compared item by item, in order, with reported lengths")
+              "satisfies and Archetype::access, query_many_mut / View::get_many_mut on handle triples (distinct or with "
+              "a repeated handle), QueryMut::into_iter_batched; compared item by item, in order, with reported lengths")
 RESERVE_RULE = ("engine sched: worlds with 0..4 ids on the free list; 2-3 cooperative threads with programs of <= 3 calls "
                 "over reserve_entity / reserve_entities(0..3) / contains, every interleaving of the calls (each is one "
                 "atomic step; yield hook before the atomic op), then flush; plus every split of one reserve_entities(n) "
@@ -650,7 +651,20 @@ class ContGen(WorldGen):
         elif k == "ebc":
             s = r.randrange(4)
             c = r.random()
-            if c < 0.4:
+            if r.random() < 0.06 and not self.poisoned[w]:
+                # the prefab life cycle in one go: fill, build, spawn, convert back, (extend,) rebuild, spawn again
+                ks = r.randrange(4)
+                self.emit(61, s); self.ebc[s] = set()
+                for t in r.sample(range(NT), r.randrange(1, 4)):
+                    self.emit(60, s, t, self.val()); self.ebc[s].add(t)
+                self.emit(63, s, ks); self.built[ks] = set(self.ebc[s]); self.ebc[s] = set()
+                self.emit(64, ks, w); self.materialise(w); self.add(w, True, self.built[ks])
+                self.emit(65, ks, s); self.ebc[s] = set(self.built[ks]); self.built[ks] = None
+                if r.random() < 0.5:
+                    t = r.randrange(NT); self.emit(60, s, t, self.val()); self.ebc[s].add(t)
+                self.emit(63, s, ks); self.built[ks] = set(self.ebc[s]); self.ebc[s] = set()
+                self.emit(64, ks, w); self.add(w, True, self.built[ks])
+            elif c < 0.4:
                 t = r.choice(list(self.ebc[s])) if self.ebc[s] and r.random() < 0.3 else r.randrange(NT)
                 self.emit(60, s, t, self.val()); self.ebc[s].add(t)
             elif c < 0.46:
@@ -794,9 +808,14 @@ def guard_case(universe, rnd, nworld, nguard, conflict_free=False):
     g.w = [30, 0, 10, 4, 2, 6, 0, 2, 0, 2, 1, 1, 0, 3, 3, 0]      # mostly spawns: build some populated archetypes
     for _ in range(nworld):
         g.step()
+    r = rnd
+    if r.random() < 0.35:
+        # empty some archetypes again (they keep their storage and their borrow flags)
+        for i in g.alive(0):
+            if r.random() < 0.75:
+                g.emit(6, 0, 0, i); g.table[i]["alive"] = False
     g.emit(12, 0, 12, 1)                                            # flush both worlds: guards need a frozen world
     slots = []          # dict(kind, qidx, w)
-    r = rnd
 
     def pick_q():
         return r.randrange(24) if r.random() < 0.75 else r.randrange(len(QUERIES))
@@ -843,10 +862,12 @@ def guard_case(universe, rnd, nworld, nguard, conflict_free=False):
                 nq = TTABLE[(slots[i]["qidx"], kind, ri)]
                 g.emit(110, i, kind, ri, nq, len(TR_ASTS[ri]), TR_ASTS[ri])
                 slots.append(dict(kind="o", qidx=nq, w=slots[i]["w"])); slots[i] = dict(kind="x", qidx=0, w=0)
-        elif c < 0.96:
+        elif c < 0.955:
             g.emit(111, w, r.randrange(0, 6), r.randrange(4), 1 if r.random() < 0.4 else 0); slots.append(dict(kind="c?", qidx=0, w=w))
-        elif c < 0.98 and slots:
-            i = r.randrange(len(slots)); g.emit(112, i); slots.append(dict(kind="c?", qidx=0, w=w))
+        elif c < 0.985 and slots:
+            cs = [i for i, s_ in enumerate(slots) if s_["kind"] == "c?"]
+            i = r.choice(cs) if cs and r.random() < 0.8 else r.randrange(len(slots))
+            g.emit(112, i); slots.append(dict(kind="c?", qidx=0, w=w))
         else:
             bi = r.randrange(len(BAD_ASTS)); path = r.randrange(5)
             g.emit(113, path * 100 + bi, len(BAD_ASTS[bi]), BAD_ASTS[bi])
@@ -1012,8 +1033,8 @@ def layout_case(universe, rnd, nops):
     return [1] + universe + g.out
 
 
-LAYOUT_RULE = ("engine world, layout profile: 8 component layouts (zero-sized with alignment 1 and 64, sizes 1..1024, alignments "
-               "1..64, with and without drop glue); scripts of 3..15 steps each followed by a layout probe (opcode 23): "
+LAYOUT_RULE = ("engine world, layout profile: 8 component layouts (ZST align 1, ZST align 8, 4-byte, 8-byte, heap-owning Box, "
+               "size 64 align 64, 24 bytes align 1, 320 bytes; all with drop glue that logs); scripts of 3..15 steps each followed by a layout probe (opcode 23): "
                "spawn_batch / column batches / reserve with sizes at the capacity boundaries " + str(BOUNDARY) + ", runs of "
                "despawns (swap-remove) and ordinary world operations; the probe compares every archetype's capacity with the "
                "model's capacity shadow and checks, in the harness, that every column base is aligned, every non-zero-sized "
@@ -1031,3 +1052,67 @@ def gen_layout(quick_n, thorough_n):
         for _ in range(quick_n if tier == "quick" else thorough_n):
             yield layout_case(universe, rnd, rnd.randrange(3, 16))
     return gen
+
+
+# ----------------------------------------------------------------------------- small scope: every short history
+SMALL_OPS = "abcdefghijklmnop"
+
+
+def small_case(universe, word):
+    """one history over a 16-operation alphabet on world 0; `first`/`last` name table entries 0 and len-1
+    (a forged handle id 0 generation 1 while the table is empty); ends with a probe of every table entry"""
+    out, n, serial = [], 0, [100]
+
+    def v():
+        serial[0] += 1
+        return serial[0]
+
+    def first():
+        return [0, 0] if n else [1, (1 << 32)]
+
+    def last():
+        return [0, n - 1] if n else [1, (1 << 32)]
+    for ch in word:
+        if ch == "a": out += [1, 0, 0, 1, 1, v()]; n += 1
+        elif ch == "b": out += [1, 0, 0, 2, 1, v(), 2, v()]; n += 1
+        elif ch == "c": out += [3, 0] + first() + [0, 1, 2, v()]
+        elif ch == "d": out += [3, 0] + last() + [0, 1, 1, v()]
+        elif ch == "e": out += [4, 0] + first() + [1, 1]
+        elif ch == "f": out += [6, 0] + first()
+        elif ch == "g": out += [6, 0] + last()
+        elif ch == "h": out += [10, 0]; n += 1
+        elif ch == "i": out += [12, 0]
+        elif ch == "j": out += [15, 0, 1, 1, 1, v()]; n += 1
+        elif ch == "k": out += [2, 0] + first() + [0, 1, 1, v()]; n += 1
+        elif ch == "l": out += [9, 0]
+        elif ch == "m": out += [7, 0] + last()
+        elif ch == "n": out += [14, 0, 1, 1, 2, v(), v()]; n += 2
+        elif ch == "o": out += [16, 0, 1, 1, 1] + first() + [v()]; n += 1
+        elif ch == "p": out += [5, 0] + first() + [1, 1] + [0, 1, 2, v()]
+    out += [20, n] + [x for i in range(n) for x in (0, i)]
+    return [1] + universe + out
+
+
+def gen_small_scope(depth_quick, depth_thorough):
+    """EXHAUSTIVE: every word of length 1..depth over SMALL_OPS (16^1 + ... + 16^depth cases)"""
+    import itertools
+
+    def gen(tier, seed, universe):
+        d = depth_quick if tier == "quick" else depth_thorough
+        for k in range(1, d + 1):
+            for word in itertools.product(SMALL_OPS, repeat=k):
+                yield small_case(universe, word)
+    return gen
+
+
+SMALL_RULE = ("; plus EXHAUSTIVE small scope: every history of length 1..d (d = 3 quick: 4 368 histories; d = 4 thorough: "
+              "69 904) over the 16-operation alphabet {spawn (T1), spawn (T1,T2), insert first (T2), insert last (T1), remove "
+              "first [T1], despawn first, despawn last, reserve_entity, flush, column batch of one row, spawn_at first, clear, "
+              "take last, spawn_batch of two, column_batch_at [first], exchange first [T1]->(T2)} on one world, followed by a "
+              "probe of every handle produced")
+
+
+def gen_world_ids(tier, seed, universe=None):
+    """real-thread supporting runs of engine 17 (concurrent World::new)"""
+    for t, r in ([(4, 3000), (2, 4000), (3, 3000)] if tier == "quick" else [(4, 20000), (2, 20000), (3, 20000), (8, 10000)]):
+        yield [17, t, r]
